@@ -30,7 +30,7 @@ PROFILE = {"n_states": (2, 4), "n_events": (1, 3), "extra_transitions": (1, 4), 
 
 
 def owns(rule, flags):
-    return rule.startswith("C04.") or bool(flags.get("after_failure"))
+    return rule.startswith("C04.") or bool(flags.get("after_failure")) or rule == "C05.phase-barrier"
 
 
 def make_case(rng, i):
@@ -66,6 +66,8 @@ def make_case(rng, i):
             faults.append({"at": k, "when": "after_sends", "exc": "base"})
     case["faults"] = faults
     case["crash_points"] = n
+    gy = {g: rng.randint(0, 2) for g in sc.spec["guards"]}
+    case["rec_setup"] = lambda rec: setattr(rec, "guard_yields", gy)
     return case
 
 
